@@ -57,6 +57,9 @@ class PlainCtx:
     def file(self, content):
         return io.BytesIO(bytes(int(c) for c in content))
 
+    def text(self, codes):
+        return "".join(chr(int(c)) for c in codes)
+
     def wfile(self):
         return io.BytesIO()
 
@@ -96,6 +99,10 @@ class SymCtx(PlainCtx):
     def file(self, content):
         from symnp import SymFile
         return SymFile(content)
+
+    def text(self, codes):
+        from symnp.strs import SymStr
+        return SymStr(codes)
 
     def wfile(self):
         from symnp import SymFile
